@@ -69,6 +69,8 @@ def main():
         for f in os.listdir(keep):
             shutil.copy(os.path.join(keep, f), os.path.join(ROOT, "evidence", f))
         shutil.rmtree(keep, ignore_errors=True)
+        # bin/harness was built against the patched tree: rebuild it for the clean one
+        sh(["go", "build", "-tags", "verif", "-o", os.path.join(ROOT, "bin", "harness"), "."], cwd=os.path.join(ROOT, "harness"), env=GOENV)
         rp = os.path.join(ROOT, "evidence", "replay")
         if os.path.isdir(rp):
             for f in os.listdir(rp):
